@@ -141,7 +141,7 @@ Qed.
 
 Lemma bindc_wf : forall x c cur t f, bindc x c cur = (t, f) -> wf cur -> wf t /\ wf f.
 Proof.
-  intros x. induction c as [y tg|y|y|y|k|a IHa|a IHa b IHb|a IHa b IHb]; intros cur t f H Hw; cbn [bindc] in H;
+  intros x. induction c as [y tg|y|y|y|k|a IHa|a IHa b IHb|a IHa b IHb|y tg|y|y]; intros cur t f H Hw; cbn [bindc] in H;
     try (destruct (Nat.eqb x y); inversion H; subst; split; apply wf_single;
          try apply st_narrow_wf; apply force_wf; exact Hw).
   - inversion H; subst. split; apply wf_single; apply force_wf; exact Hw.
@@ -175,7 +175,7 @@ Lemma bindc_sound : forall o x env vin c cur t f bv pos pos',
   if bv then R vin (getv env x) t else R vin (getv env x) f.
 Proof.
   intros o x env vin.
-  induction c as [y tg|y|y|y|k|a IHa|a IHa b IHb|a IHa b IHb]; intros cur t f bv pos pos' H He Ht HR;
+  induction c as [y tg|y|y|y|k|a IHa|a IHa b IHb|a IHa b IHb|y tg|y|y]; intros cur t f bv pos pos' H He Ht HR;
     cbn [bindc] in H; cbn [eval] in He; cbn [ctests] in Ht.
   - inversion He; subst; clear He. destruct (Nat.eqb x y) eqn:Exy.
     + apply Nat.eqb_eq in Exy. subst y. inversion H; subst; clear H.
@@ -223,6 +223,24 @@ Proof.
     + inversion He; subst. apply R_app_l. exact IHa.
     + rewrite (R_fin _ _ _ cur IHa) in Ebb.
       specialize (IHb _ _ _ _ _ _ Ebb He Htb IHa). destruct bv; [apply R_app_r; exact IHb | exact IHb].
+  - inversion He; subst; clear He. destruct (Nat.eqb x y) eqn:Exy.
+    + apply Nat.eqb_eq in Exy. subst y. inversion H; subst; clear H.
+      pose proof (strict_of_tests _ Ht) as Hv.
+      destruct (tag_eqb (tag_of (getv env x)) tg) eqn:E;
+        apply R_narrow_single; try assumption; apply sat_guard_intro; exact E.
+    + inversion H; subst. destruct (tag_eqb (tag_of (getv env y)) tg); apply R_force; exact HR.
+  - inversion He; subst; clear He. destruct (Nat.eqb x y) eqn:Exy.
+    + apply Nat.eqb_eq in Exy. subst y. inversion H; subst; clear H.
+      pose proof (strict_of_tests _ Ht) as Hv.
+      destruct (atom_eqb (getv env x) ANil) eqn:E;
+        apply R_narrow_single; try assumption; cbn [sat]; rewrite E; reflexivity.
+    + inversion H; subst. destruct (atom_eqb (getv env y) ANil); apply R_force; exact HR.
+  - inversion He; subst; clear He. destruct (Nat.eqb x y) eqn:Exy.
+    + apply Nat.eqb_eq in Exy. subst y. inversion H; subst; clear H.
+      pose proof (strict_of_tests _ Ht) as Hv.
+      destruct (atom_eqb (getv env x) ANil) eqn:E; cbn [negb];
+        apply R_narrow_single; try assumption; cbn [sat negb]; rewrite E; reflexivity.
+    + inversion H; subst. destruct (negb (atom_eqb (getv env y) ANil)); apply R_force; exact HR.
 Qed.
 
 (* ------------------------------------------------------------------------------------ loops, generically *)
